@@ -34,6 +34,13 @@ def storm(res):
         if o.get("oracle_fail"):
             res.violations.append({"what": o["oracle_fail"], "family": "ws-storm", "case": o,
                                    "signature": "ws-storm:%s:%d:%d" % (o["names"], o["conns"], o["group"])})
+    rc, tobs, err, bad = vlib.run_family(exe, "panic-typed", seed=res.seed, tier=res.tier, timeout=300)
+    if rc != 0 or bad or not tobs:
+        res.mismatches.append({"family": "panic-typed", "error": "harness exit %d" % rc, "stderr": err[-2000:], "bad": bad[:3]})
+    for o in tobs or []:
+        if o.get("oracle_fail"):
+            res.violations.append({"what": o["oracle_fail"], "family": "panic-typed", "case": o, "signature": "panic-typed:%s:%s" % (o["transport"], o["method"])})
+    res.add_cov(panic_through_real_client_with_error_table=len(tobs or []))
     cov = res.coverage
     n = sum(o["conns"] * o["per_conn"] for o in obs)
     cov["concurrent_panic_calls"] = n
